@@ -50,21 +50,27 @@ def correspondence(ctx):
                                      ("pessimistic", US.get_pessimistic_constraints, "~>")):
                 if name != "semver":
                     continue
-                t = s.lstrip("vV")
-                try:
-                    lo, hi = fn(prefix + t)
-                except Exception:  # noqa: BLE001 — invalid operand text for the helper: C16's business
-                    continue
-                ctx.count("shorthand:" + kind, key=t, nontrivial=nt)
-                try:
-                    start = cls(t)
-                    ok = (lo.version < hi.version) and (start in lo) and (start in hi)
-                    why = None if ok else "lower=%s upper=%s start=%s" % (lo, hi, start)
-                except Exception as e:  # noqa: BLE001
-                    why = "raises %s" % type(e).__name__
-                if why:
-                    ctx.disagree("shorthand:" + kind, prefix + t, why, "lower < upper, start satisfies both", True,
-                                 {"helper": kind, "version": t, "clause": why}, spec="bracketing")
+                t0 = s.lstrip("vV")
+                # also the spelling without the hyphen (1.2.3rc1 is read as 1.2.3-rc1) and with a leading v
+                texts = [t0] + ([t0.replace("-", "", 1)] if "-" in t0 and rng.random() < 0.5 else [])
+                for t in texts:
+                    try:
+                        start = cls(t)
+                    except Exception:  # noqa: BLE001
+                        continue
+                    try:
+                        lo, hi = fn(prefix + t)
+                    except Exception:  # noqa: BLE001 — invalid operand text for the helper: C16's business
+                        continue
+                    ctx.count("shorthand:" + kind, key=t, nontrivial=nt)
+                    try:
+                        ok = (lo.version < hi.version) and (start in lo) and (start in hi)
+                        why = None if ok else "lower=%s upper=%s start=%s" % (lo, hi, start)
+                    except Exception as e:  # noqa: BLE001
+                        why = "raises %s" % type(e).__name__
+                    if why:
+                        ctx.disagree("shorthand:" + kind, prefix + t, why, "lower < upper, start satisfies both", True,
+                                     {"helper": kind, "version": t, "clause": why}, spec="bracketing")
     # ---- gem
     rng = ctx.rng("c18", "gem")
     for _ in range(m):
